@@ -93,6 +93,11 @@ impl From<Option<VcfGenotype>> for genotype::Result {
         match genotype {
             Some(genotype) => match &genotype[..] {
                 [a, b] => match (a.position(), b.position()) {
+                    // Any allele other than the reference and the first alternative is
+                    // multiallelic, also where the allele indices happen to sum to a valid count
+                    (Some(a), Some(b)) if a > 1 || b > 1 => {
+                        genotype::Result::Skipped(genotype::Skipped::Multiallelic)
+                    }
                     (Some(a), Some(b)) => match Genotype::try_from_raw(a + b) {
                         Some(genotype) => genotype::Result::Genotype(genotype),
                         None => genotype::Result::Skipped(genotype::Skipped::Multiallelic),
